@@ -563,6 +563,35 @@ fn c08(g: &mut Gen) {
 
 // ------------------------------------------------------------------------------------------------ C16
 fn c16(g: &mut Gen) {
+    // routing tables as they really look — a bridge followed by its pool, single endpoints between ranges, contiguous behind
+    // one address, listed upwards, downwards or pool-first — of every length 2..12: up to 7 entries are carried exactly as
+    // given, 8 or more are refused however they could be folded
+    for n in 2..=12usize {
+        let reps = g.n(8, 80);
+        for _ in 0..reps {
+            let cfg = gen_cfg(&mut g.rng);
+            g.case("routing-runs", &cfg, |s, r| {
+                let addr = r.byte(); let mut first = 1 + r.below(60) as u8;
+                let mut lists: Vec<Vec<u8>> = Vec::new();
+                while lists.len() < n {
+                    if lists.len() + 1 < n && r.chance(1, 2) {
+                        // a bridge and the pool behind it
+                        let sz = 1 + r.below(8) as u8;
+                        lists.push(vec![2, 1, first, addr]); lists.push(vec![r.pick(&[3u8, 3, 1]), sz, first.wrapping_add(1), addr]);
+                        first = first.wrapping_add(1 + sz);
+                    } else {
+                        let ty = r.below(4) as u8; let sz = if ty == 0 || ty == 2 { 1 } else { 1 + r.below(6) as u8 };
+                        lists.push(vec![ty, sz, first, addr]); first = first.wrapping_add(sz);
+                    }
+                }
+                match r.below(4) { 0 => lists.reverse(), 1 => { let mut i = 0; while i + 1 < lists.len() { lists.swap(i, i + 1); i += 2; } } _ => {} }
+                let c = Call { req: true, id: 9, nums: vec![r.addr() as u32], lists };
+                let cap = 15 + 4 * n + r.below(9) as usize; let k = r.below(3);
+                let buf = poison(r, cap, k);
+                s.op(enc_op(&c, buf));
+            });
+        }
+    }
     // halves constructed on their own (no context around them) and the constructors that only wrap bytes: the rest
     // of the public API, tied by fidelity
     {
@@ -726,7 +755,9 @@ fn corrupt(r: &mut Rng, p: &[u8]) -> Vec<u8> {
     let mut q = p.to_vec();
     if q.is_empty() { return q; }
     if r.chance(1, 6) { return weak_corrupt(r, p); }
-    match r.below(8) {
+    match r.below(10) {
+        8 => { let k = 1 + r.below(3) as usize; if q.len() > k { q.drain(0..k); } }   // the first byte(s) missing (frame handed over without its address byte)
+        9 => { let x = r.byte(); let b = r.pick(&[q[0], 0x0F, crate::exec::hint().0 << 1, x]); q.insert(0, b); }   // one byte too many in front
         6 => { let k = 1 + r.below(8) as usize; let t = r.bytes(k); q.extend(t); }   // stray bytes after the packet
         7 => { if q.len() > 2 { q[2] = r.byte(); } }                                 // byte count corrupted
         0 => { let i = q.len() - 1; q[i] ^= 1 << r.below(8); }                 // PEC bit flip
@@ -882,6 +913,23 @@ fn c09(g: &mut Gen) {
         g.case("mix", &cfg, |s, r| {
             let p = any_packet(s, r);
             s.op(Op::Decode(p));
+        });
+    }
+    // windows of valid packets: the first 1-3 bytes missing (a controller that strips the address byte) or extra bytes in
+    // front, for packets addressed to this context's own address and to others, from the library's encoders and from
+    // the independent builder; with and without the PEC made right for the shifted string
+    let m = g.n(60, 3000);
+    for _ in 0..m {
+        let cfg = gen_cfg(&mut g.rng);
+        g.case("shifted", &cfg, |s, r| {
+            let (a, _, _) = crate::exec::hint();
+            let mut p = if r.chance(1, 2) { encoder_packet(s, r).unwrap_or_else(|| gen_packet(r, true)) }
+                        else { let cmd = 1 + r.below(8) as u8; let d = r.bytes(fixed_req_len(cmd).unwrap_or(0)); request(r.below(128) as u8, 0, cmd, &d, r) };
+            if r.chance(2, 3) && p.len() > 1 { p[0] = (a & 0x7F) << 1; let l = p.len(); let c = crc8(&p[..l - 1]); p[l - 1] = c; }
+            s.op(Op::Decode(p.clone()));
+            for k in 1..=3usize { if p.len() > k { s.op(Op::Decode(p[k..].to_vec())); } }
+            for b in [p[0], 0x0F, (a & 0x7F) << 1, 0x00] { let mut q = vec![b]; q.extend(&p); s.op(Op::Decode(q)); }
+            if p.len() > 4 { let mut q = p[1..].to_vec(); let l = q.len(); let c = crc8(&q[..l - 1]); q[l - 1] = c; s.op(Op::Decode(q.clone())); let b = pbuf(r, 64, 0); s.op(Op::Process(q, b)); }
         });
     }
     // mutations of encoder outputs: every truncation point and substitutions with and without PEC fix-up
@@ -1049,6 +1097,24 @@ fn c01(g: &mut Gen) {
             });
         }
     }
+    // UUIDs related to the one the receiving context holds (same node other time, same time other node, one byte off,
+    // reversed, identical): what is decoded does not depend on what the receiver is
+    let n = g.n(40, 2_000);
+    for _ in 0..n {
+        let cfg = gen_cfg(&mut g.rng);
+        g.case("uuid-related", &cfg, |s, r| {
+            let u = r.uuid(); s.op(Op::SetUuid(u.clone()));
+            for _ in 0..4 {
+                let v = r.related_uuid(&u);
+                let c = Call { req: false, id: 3, nums: vec![0, r.addr() as u32], lists: vec![v.clone()] };
+                let buf = buf_for(r, &c);
+                if let Obs::Enc(Some(n), out) = s.op(enc_op(&c, buf)) { s.op(Op::Decode(out[..n].to_vec())); }
+                let c = Call { req: true, id: 16, nums: vec![r.addr() as u32, r.cbyte() as u32], lists: vec![v] };
+                let buf = buf_for(r, &c);
+                if let Obs::Enc(Some(n), out) = s.op(enc_op(&c, buf)) { s.op(Op::Decode(out[..n].to_vec())); }
+            }
+        });
+    }
     // all six completion codes on every response encoder
     for id in RESP_IDS {
         for cc in 0..6u32 {
@@ -1198,7 +1264,7 @@ fn request(src: u8, inst: u8, cmd: u8, data: &[u8], r: &mut Rng) -> Vec<u8> {
     // either EID it currently holds / the requester's ID / anything as destination EID
     let (a, er, es) = crate::exec::hint();
     let dst = if r.chance(1, 2) { a & 0x7F } else { r.below(128) as u8 };
-    let de = match r.below(6) { 0 => a, 1 => er, 2 => es, 3 => src, _ => r.byte() };
+    let de = match r.below(7) { 0 => a, 1 => er, 2 => es, 3 => src, 4 => r.pick(&[0xFFu8, 0x00, 0xFF, 0xFE, 0x01]), _ => r.byte() };   // broadcast / null EID too
     let mut p = build_packet(dst, src, 1, de, src, flags, 0, &ctl_body(true, d, rs, inst, cmd, None, data));
     let mut touched = false;
     if r.chance(1, 8) { p[3] &= 0xFE; touched = true; }
@@ -1267,6 +1333,29 @@ fn c12(g: &mut Gen) {
             }
         });
     }
+    // Set Endpoint ID whose parameter is related to the parties: the requester's own ID, the responder's address, an EID
+    // the responder already holds — on a responder whose EID is its own address, some other value, or still 0
+    let n = g.n(60, 2_000);
+    for _ in 0..n {
+        let cfg = gen_cfg(&mut g.rng);
+        g.case("related-eid", &cfg, |s, r| {
+            let (a, _, _) = crate::exec::hint();
+            match r.below(4) {
+                0 => {}
+                1 => { let q = request(r.below(128) as u8, 0, 1, &[r.below(2) as u8, a], r); let b = pbuf(r, 64, 0); s.op(Op::Process(q, b)); }
+                2 => { s.op(Op::SetEid(true, a)); s.op(Op::SetEid(false, a)); }
+                _ => { let q = request(r.below(128) as u8, 0, 1, &[r.below(2) as u8, 1 + r.below(254) as u8], r); let b = pbuf(r, 64, 0); s.op(Op::Process(q, b)); }
+            }
+            for _ in 0..4 {
+                let src = 1 + r.below(127) as u8;
+                let (_, er, es) = crate::exec::hint();
+                let x = 1 + r.below(254) as u8; let e = r.pick(&[src, src, a, er, es, src.wrapping_add(1), x]);
+                if e == 0 || e == 0xFF { continue; }
+                let q = request(src, if r.chance(1, 2) { 0 } else { r.below(32) as u8 }, 1, &[r.below(2) as u8, e], r);
+                let b = pbuf(r, 64, 0); s.op(Op::Process(q, b));
+            }
+        });
+    }
     // whole conversations: the library's own request encoders on one side, this context on the other
     let n = g.n(60, 2_000);
     for _ in 0..n {
@@ -1325,6 +1414,7 @@ fn peer_response(s: &mut Session, r: &mut Rng, cmd: Option<u8>) {
             if r.chance(1, 2) { d.extend([0u8, 0x12, 0x34, 0xAB, 0xCD]); } else { d.extend([1u8, 0, 1, 0x9C, 0x42, 1, 2]); }
             d
         }
+        3 => { let u = crate::exec::last_uuid(); if r.chance(3, 4) { r.related_uuid(&u) } else { r.uuid() } }
         _ => { let dl = fixed_resp_len(cmd).unwrap_or(2); r.bytes(dl) }
     };
     let cc = if r.chance(3, 4) { 0 } else { r.below(6) as u8 };
@@ -1378,7 +1468,11 @@ fn history(s: &mut Session, len: usize, r: &mut Rng) {
             13 => { let p = any_packet(s, r); s.op(Op::Decode(p)); }
             14 => { let p = any_packet(s, r); s.op(Op::GetLength(p)); }
             15 => { s.op(Op::SetEid(r.chance(1, 2), r.cbyte())); }
-            16 => { let u = r.uuid(); s.op(Op::SetUuid(u)); }
+            16 => {
+                let prev = crate::exec::last_uuid();
+                let u = if prev.len() == 16 && r.chance(1, 3) { r.related_uuid(&prev) } else { r.uuid() };
+                s.op(Op::SetUuid(u));
+            }
             17 => { peer_response(s, r, None); } // responses (never answered; the context in its requester role)
             _ => { // encoder calls on either half
                 let keys = all_keys();
@@ -1533,6 +1627,24 @@ fn c14(g: &mut Gen) {
             }
         });
     }
+    // sets that share a vendor (same format and ID, different numeric values) in runs, and every sequence of three
+    // selectors WITH repetition (a requester that retries): the answer to selector i is the same every time
+    for n in 3..=5usize {
+        for pat in 0..3u32 {
+            let mut cfg = gen_cfg(&mut g.rng);
+            let (fa, ia) = (g.rng.below(2) as u8, g.rng.c32()); let (fb, ib) = (g.rng.below(2) as u8, g.rng.c32() ^ 0x0101);
+            cfg.vendor_ids = (0..n).map(|i| {
+                let same = match pat { 0 => true, 1 => i < 3, _ => i >= 1 };
+                if same { (fa, ia, 1 + i as u16) } else { (fb, ib, 0x0A0B + i as u16) }
+            }).collect();
+            g.case("retry", &cfg, |s, r| {
+                for a in 0..n { for b in 0..n { for c in 0..n {
+                    if a != b && b != c { continue; }                  // only sequences with a repeat (the others are in `perm`)
+                    for sel in [a, b, c] { let p = request(5, 0, 6, &[sel as u8], r); let b = rbuf(r, 1); s.op(Op::Process(p, b)); }
+                } } }
+            });
+        }
+    }
     // every order of selectors for n <= 4
     for n in 1..=4usize {
         let mut perm: Vec<u8> = (0..n as u8).collect();
@@ -1555,6 +1667,20 @@ fn permute(a: &mut Vec<u8>, k: usize, out: &mut Vec<Vec<u8>>) {
 // ------------------------------------------------------------------------------------------------ C15
 fn c15(g: &mut Gen) {
     list_size_cases(g);
+    // UUIDs one byte apart, at every position, installed one after the other (and from the initial all-zero state)
+    for from_zero in [true, false] {
+        let cfg = gen_cfg(&mut g.rng);
+        g.case("uuid-step", &cfg, |s, r| {
+            let mut u = if from_zero { vec![0u8; 16] } else { r.uuid() };
+            if !from_zero { s.op(Op::SetUuid(u.clone())); }
+            for i in (0..16).rev().chain(0..16) {
+                u[i] = u[i].wrapping_add(1 + r.below(255) as u8);
+                s.op(Op::SetUuid(u.clone()));
+                let p = answerable_request(s.nvend, 3, r.below(128) as u8, 0, r);
+                let b = pbuf(r, 64, 0); s.op(Op::Process(p, b));
+            }
+        });
+    }
     let reps = g.n(4, 150);
     for n in 0..=30usize {
         for _ in 0..reps {
@@ -1563,7 +1689,12 @@ fn c15(g: &mut Gen) {
             g.case("ident", &cfg, |s, r| {
                 for _ in 0..(1 + r.below(4)) {
                     if r.chance(1, 2) { history(s, r.below(6) as usize, r); }
-                    if r.chance(2, 3) { let u = r.uuid(); s.op(Op::SetUuid(u)); }
+                    if r.chance(2, 3) {
+                        // a new UUID, or one that differs from the installed one in a few bytes only (first, middle or last)
+                        let prev = crate::exec::last_uuid();
+                        let u = if prev.len() == 16 && r.chance(1, 2) { r.related_uuid(&prev) } else { r.uuid() };
+                        s.op(Op::SetUuid(u));
+                    }
                     for cmd in [5u8, 3, 4] {
                         let p = answerable_request(s.nvend, cmd, r.below(128) as u8, r.below(32) as u8, r);
                         let b = pbuf(r, 64, 29); s.op(Op::Process(p, b));
@@ -1602,6 +1733,43 @@ fn c02(g: &mut Gen) {
                 let q = request(7, 0, 2, &[], r); let b = rbuf(r, 0); s.op(Op::Process(q, b));
             });
         }
+    }
+    // messages that echo the receiver's own configuration: after the context was asked for vendor set i, vendor-defined /
+    // SPDM messages whose payload begins with one of its configured sets written in each documented way (ID and numeric
+    // value big-endian, the response encoding, the ID alone), its message-type list or its UUID, under every flags
+    // nibble, with a wrong PEC: none of it makes a wrong PEC acceptable
+    let reps = g.n(30, 1200);
+    for _ in 0..reps {
+        let mut cfg = gen_cfg(&mut g.rng);
+        let nv = 1 + g.rng.below(4) as usize;
+        cfg.vendor_ids = (0..nv).map(|_| ((g.rng.below(2)) as u8, g.rng.c32(), g.rng.c16())).collect();
+        let sets = cfg.vendor_ids.clone(); let mts = cfg.msg_types.clone();
+        g.case("config-echo", &cfg, |s, r| {
+            s.twin_on = true; s.alt_on = false;
+            let i = r.below(nv as u64) as usize;
+            if r.chance(3, 4) { let q = request(r.below(128) as u8, 0, 6, &[i as u8], r); let b = pbuf(r, 64, 0); s.op(Op::Process(q, b)); }
+            let u = r.uuid(); if r.chance(1, 2) { s.op(Op::SetUuid(u.clone())); }
+            for (j, (fmt, data, num)) in sets.iter().enumerate() {
+                if j != i && r.chance(1, 2) { continue; }
+                let d = data.to_be_bytes(); let nmb = num.to_be_bytes();
+                let heads: Vec<Vec<u8>> = vec![
+                    [&d[..], &nmb[..]].concat(), [&d[2..], &nmb[..]].concat(), d.to_vec(), d[2..].to_vec(),
+                    [&[*fmt][..], &d[..], &nmb[..]].concat(), [&[*fmt][..], &d[2..], &nmb[..]].concat(), mts.clone(), u.clone()];
+                for h in heads {
+                    let ty = r.pick(&[0x7Fu8, 0x7E, 0x7F, 0x05, 0x06]);
+                    let mut body = h.clone(); let k = r.below(6) as usize; body.extend(r.bytes(k));
+                    let flags = r.pick(&[0xC8u8, 0xC0, 0xC0, 0xC1, 0x80, 0x40, 0x00]);
+                    let src = r.below(128) as u8;
+                    let good = build_packet(r.below(128) as u8, src, 1, r.byte(), src, flags, ty, &body);
+                    let mut bad = good.clone(); let l = bad.len();
+                    match r.below(3) { 0 => bad[l - 1] ^= 1 << r.below(8), 1 => bad[7] ^= 0x08, _ => { let x = r.below((l - 1) as u64) as usize; bad[x] ^= 1 << r.below(8); } }
+                    s.op(Op::Decode(bad.clone()));
+                    let b = pbuf(r, 64, 0); s.op(Op::Process(bad, b));
+                    if r.chance(1, 3) { s.op(Op::Decode(good)); }
+                }
+            }
+            let q = request(7, 0, 2, &[], r); let b = rbuf(r, 0); s.op(Op::Process(q, b));
+        });
     }
     // a valid packet followed by stray bytes, and a valid packet with every other value of its byte count:
     // the PEC of the whole string no longer matches, whatever the byte count says
